@@ -62,3 +62,51 @@ fn c04_shared_last_term_trip_reports_max_position_exceeded() {
     assert_eq!(meta.get::<i32>(*lbd::LOG_ACTIVE_TERM_COUNT_OFFSET), i32::MAX, "the stream must not advance past the maximum position");
     std::mem::forget(p);
 }
+
+/// a log handed over with ONE elapsed term and `tail` bytes used in the active term
+fn second_term_log(log: &AlignedBuffer, tail: i32) -> Arc<LogBuffers> {
+    let t = lbd::TERM_MIN_LENGTH;
+    let lb = Arc::new(unsafe { LogBuffers::new(log.ptr(), log.len() as isize, t) });
+    let meta = lb.atomic_buffer(lbd::LOG_META_DATA_SECTION_INDEX);
+    let initial: i32 = 5;
+    meta.put(*lbd::LOG_MTU_LENGTH_OFFSET, 4096);
+    meta.put(*lbd::LOG_TERM_LENGTH_OFFSET, t);
+    meta.put(*lbd::LOG_PAGE_SIZE_OFFSET, lbd::AERON_PAGE_MIN_SIZE);
+    meta.put(*lbd::LOG_INITIAL_TERM_ID_OFFSET, initial);
+    meta.put(*lbd::LOG_ACTIVE_TERM_COUNT_OFFSET, 1);
+    meta.put::<i64>(*lbd::TERM_TAIL_COUNTER_OFFSET + 8, (((initial + 1) as i64) << 32) | tail as i64);
+    meta.put::<i64>(*lbd::TERM_TAIL_COUNTER_OFFSET + 16, ((initial - 1) as i64) << 32);
+    meta.put::<i64>(*lbd::TERM_TAIL_COUNTER_OFFSET, (initial as i64) << 32);
+    lb
+}
+
+#[test]
+fn c04_exclusive_offer_flush_with_term_end_reports_position_after_message() {
+    let fx = common::fixture();
+    let t = lbd::TERM_MIN_LENGTH;
+    let log = AlignedBuffer::with_capacity(3 * t + lbd::LOG_META_DATA_LENGTH);
+    let lb = second_term_log(&log, t - 64);
+    let limit = UnsafeBufferPosition::new(AtomicBuffer::from_aligned(&fx.counter_values), 0);
+    limit.set(i64::MAX);
+    let mut p = ExclusivePublication::new(fx.conductor.clone(), CString::new("aeron:ipc").unwrap(), 1, 10, 200, limit, -1, lb.clone());
+    let mut msg = [1u8; 32];
+    let r = p.offer(AtomicBuffer::wrap_slice(&mut msg)).expect("message fits the term exactly");
+    assert_eq!(r, 2 * t as i64, "returned position must be the stream position just after the message");
+    assert_eq!(p.position().unwrap(), 2 * t as i64);
+    std::mem::forget(p);
+}
+
+#[test]
+fn c04_shared_offer_flush_with_term_end_reports_position_after_message() {
+    let fx = common::fixture();
+    let t = lbd::TERM_MIN_LENGTH;
+    let log = AlignedBuffer::with_capacity(3 * t + lbd::LOG_META_DATA_LENGTH);
+    let lb = second_term_log(&log, t - 64);
+    let limit = UnsafeBufferPosition::new(AtomicBuffer::from_aligned(&fx.counter_values), 0);
+    limit.set(i64::MAX);
+    let p = Publication::new(fx.conductor.clone(), CString::new("aeron:ipc").unwrap(), 1, 1, 10, 200, limit, -1, lb.clone());
+    let mut msg = [1u8; 32];
+    let r = p.offer(AtomicBuffer::wrap_slice(&mut msg)).expect("message fits the term exactly");
+    assert_eq!(r as i64, 2 * t as i64, "returned position must be the stream position just after the message");
+    std::mem::forget(p);
+}
